@@ -1,4 +1,5 @@
 import Gbo.Spec.Valid
+import Gbo.Proofs.HoleLinks
 /-
   C02 — result rings form a valid polygon set.  The consequence stated in the property: when holes lie in
   their exterior, holes of one polygon are disjoint and polygons are disjoint (at a point), the
@@ -96,5 +97,20 @@ theorem C02_struct_eq_evenodd_of_valid (ps : List (Bool × List Bool))
 /-- non-vacuity: a polygon with one hole and a second polygon elsewhere -/
 example : AtMostOne [true, false] ∧ AtMostOne ([] : List Bool) := by
   simp [AtMostOne]
+
+/-- **Hole bookkeeping of `connect_edges`.**  When a new contour is initialised from its context, it is
+    recorded as a hole of contour `p` (`hole_of = Some(p)`) exactly when its id is appended to `p`'s `hole_ids`,
+    `p` is an existing contour, and no other contour changes; a contour that is not a hole leaves the list of
+    contours untouched.  Hence the final assembly (`hole_of.is_none()` ↦ polygon, `hole_ids` ↦ its interiors)
+    lists every hole under exactly the contour it names as its parent. -/
+theorem C02_hole_bookkeeping (cfg : Cfg) (a : Arena) (event : Nat) (contours contours' : Array Contour)
+    (cid : Int) (c : Contour) (h : initializeFromContext cfg a event contours cid = .ok (c, contours')) :
+    contours'.size = contours.size ∧
+    (match c.holeOf with
+     | some p => idxOk contours.size p = true ∧
+         contours'[p.toNat]!.holeIds = contours[p.toNat]!.holeIds.push cid ∧
+         ∀ j, j ≠ p.toNat → contours'[j]! = contours[j]!
+     | none => contours' = contours) :=
+  initializeFromContext_links cfg a event contours contours' cid c h
 
 end Gbo.Props
